@@ -88,6 +88,11 @@ CLAIMED["C04"] = dict(
     technique="symbolic execution of the real readers on tokenised corpus files; unit factors read off the canonical polynomial form of the loaded terms and compared with CODATA intervals",
     ref="4/C04")
 
+CLAIMED["C01"] = dict(
+    text="Bounded symbolic model checking of wavefunction conversion through api.dump_one for FCHK, Molden, Molekel, WFN and WFX: objects with 2 atoms (incl. an ECP centre), shell lists s+p / three shells in unsorted centre order / Cartesian d / pure d / SP / generalized, conventions = the target's own, HORTON2 and reversed+sign-flipped, restricted closed-shell / ROHF / unrestricted orbitals, allow_changes in {False, True}; all MO coefficients, energies, contraction coefficients and coordinates symbolic. The real prepare_dump, convert_conventions, writers and readers run on terms; the reloaded object is compared with the source as functions of space through expansions in linearly independent normalised primitives (z3 + canonical forms): nuclei, per-orbital function, occupation, energy, spin; a written file must be readable.",
+    note="Decoder = the real reader (writer and reader wrong in the same way are not separated); Molden/Molekel reload with the normalisation gate opened and concrete geometry/contractions; FCHK density matrices, >4 shells, l>2 (quick) outside; three recorded Molekel findings.",
+    ref="4/C01")
+
 NOT_YET = "check not built yet in this round (planned, see DESIGN.md section 4)"
 NA = {}
 
